@@ -141,6 +141,28 @@ def replay(p):
         fn = getattr(ST, p['fn'])
         val = fn(p['d'], p['x'])
         return (not np.all(np.isfinite(val))), f"{p['fn']}({p['d']}, {p['x']}) = {val} is not finite"
+    if what == 'upb':
+        import numqi.entangle as E
+        kind, args = p['kind'], p.get('args')
+        args = tuple(args) if isinstance(args, list) else args
+        trials = [args] if kind != 'sixparam' else [np.random.default_rng(s_).uniform(0.1, 1.4, size=6) for s_ in range(8)] + ([np.array(p['para'], dtype=float)] if p.get('para') else [])
+        for a_ in trials:
+            upb = E.load_upb(kind, a_, ignore_warning=True)
+            dims = [x.shape[1] for x in upb]
+            prod = E.load_upb(kind, a_, return_product=True, ignore_warning=True)
+            n, D = prod.shape
+            bad = not H.close(prod.conj() @ prod.T, np.eye(n), 1e-9)
+            for x in upb:
+                bad |= not H.close(np.linalg.norm(x, axis=1), np.ones(n), 1e-9)
+            bes = E.upb_to_bes(upb)
+            ev = np.linalg.eigvalsh((bes + bes.conj().T) / 2)
+            bad |= np.abs(bes - bes.conj().T).max() > 1e-9 or abs(np.trace(bes) - 1) > 1e-9 or ev.min() < -1e-9 or int(np.sum(ev > 1e-9)) != D - n
+            if len(dims) == 2:
+                pt = bes.reshape(dims[0], dims[1], dims[0], dims[1]).transpose(0, 3, 2, 1).reshape(D, D)
+                bad |= np.linalg.eigvalsh((pt + pt.conj().T) / 2).min() < -1e-9
+            if bad:
+                return True, f'load_upb({kind!r}, {a_ if kind != "sixparam" else np.round(a_, 4).tolist()}): not an orthonormal product set / complementary projector is not a PPT state of rank D - |UPB|'
+        return False, f'load_upb({kind!r}) is an orthonormal product set with a PPT complementary state'
     if what == 'iso_eof_formula':
         d = p['d']
         xs = ([p['x']] if p.get('x') is not None else []) + list(np.linspace(1.0 / (d + 1) + 1e-6, 1.0, 400))
@@ -321,6 +343,50 @@ def run(chk):
             for xe in (float(lo_f(d)), float(hi_f(d)), 1.0, 0.0):
                 ok, what = replay({'what': 'finite', 'fn': fn, 'd': d, 'x': xe})
                 chk.add(f'{fn}({d}, {xe:.6g}) finite (ground, binary64)', [], ir.bconst(not ok), key=f'{fn} not finite at {xe:.6g}', replay=('c18', {'what': 'finite', 'fn': fn, 'd': d, 'x': xe}))
+    # ---- unextendible product bases: the six-parameter family symbolically (every parameter value), the parameter-free / integer-argument kinds as ground checks
+    import numqi.entangle.upb as UPBM
+    chk.fn('numqi.entangle.load_upb', 'numqi.entangle.upb_to_bes')
+    para = H.re_array('upbp', 6)
+    chk.configurations += 1
+    # domain: the normalisation constants N_A, N_B are not clamped (cos^2(gamma) + sin^2(gamma) cos^2(theta) > 1e-20); in the clamped corner the code itself warns "NOT a upb"
+    S.new_ctx('upb')
+    pp = A.plain(para)
+    cg = lambda i: S.as_sc(pp[i]).cos()
+    sg = lambda i: S.as_sc(pp[i]).sin()
+    pre_u = [((cg(0) * cg(0) + sg(0) * sg(0) * cg(1) * cg(1)) > 1e-20).n, ((cg(3) * cg(3) + sg(3) * sg(3) * cg(4) * cg(4)) > 1e-20).n]
+    try:
+        paths, st = H.run_paths(lambda: UPBM.load_upb('sixparam', para, ignore_warning=True), pre_u, feas_timeout_ms=2000, max_paths=16)
+    except S.EngineError as e:
+        chk.engine_error('load_upb(sixparam)', e)
+        paths = []
+    if paths:
+        chk.add_path_stats(st)
+    rpu = ('c18', lambda m: {'what': 'upb', 'kind': 'sixparam', 'para': [float(m.get(f'upbp{i}', 0.7)) for i in range(6)]})
+    for pi, path in enumerate(paths):
+        if path.status != 'return':
+            chk.add(f"load_upb('sixparam') raises {type(path.value).__name__} (path {pi})", path.pc + path.facts, ir.FALSE, key='load_upb(sixparam) raises', replay=rpu)
+            continue
+        with path.resume():
+            ua, ub = (np.asarray(A.plain(x) if isinstance(x, A.SymArray) else x, dtype=object) for x in path.value)
+            base = pre_u + path.pc + path.facts + [c for k_, c in path.side]
+            ip = lambda u_, i, j: sum((S.as_sc(u_[i, t]).conjugate() * S.as_sc(u_[j, t]) for t in range(u_.shape[1])), SC(ir.ZERO))
+            ok = ua.shape == (5, 3) and ub.shape == (5, 3)
+            cl = [H.eq_sc(ip(u_, i, i), 1) for u_ in (ua, ub) for i in range(5)] if ok else [ir.FALSE]
+            chk.add(f"load_upb('sixparam'): every local vector has unit norm, for all six parameters (path {pi})", base, ir.band_all(cl), key='load_upb(sixparam) not normalised', replay=rpu)
+            for i in range(5):
+                for j in range(i + 1, 5):
+                    chk.add(f"load_upb('sixparam'): product vectors {i},{j} orthogonal (<a_i|a_j><b_i|b_j> == 0), for all six parameters (path {pi})", base,
+                            H.eq_sc(ip(ua, i, j) * ip(ub, i, j), 0) if ok else ir.FALSE, key='load_upb(sixparam) not orthogonal', replay=rpu)
+    for kind, args in [('tiles', None), ('pyramid', None), ('feng4x4', None), ('min4x4', None), ('feng2x2x2x2', None), ('quadres', 3), ('genshifts', 3), ('gentiles1', 4), ('gentiles2', (3, 4))] + \
+            ([] if quick else [('quadres', 7), ('genshifts', 5), ('gentiles1', 6), ('gentiles2', (4, 4)), ('gentiles2', (3, 5))]):
+        chk.configurations += 1
+        pay = {'what': 'upb', 'kind': kind, 'args': list(args) if isinstance(args, tuple) else args}
+        try:
+            ok, what = replay(pay)
+        except Exception as e:
+            ok, what = True, f'load_upb({kind!r}, {args}) raises {type(e).__name__}: {e}'
+        chk.add(f'load_upb({kind!r}, {args}): orthonormal product vectors; complementary projector Hermitian, trace one, PSD, PPT, rank D-|UPB| (ground, binary64 tol 1e-9)', [], ir.bconst(not ok),
+                key=f'load_upb({kind}) invalid', replay=('c18', pay))
     # ---- isotropic EOF on the entangled range: the published piecewise formula (curved up to F_c = 4(d-1)/d^2, straight line beyond), exact reals
     for d in (2, 3) if quick else (2, 3, 4, 5):
         chk.configurations += 1
@@ -381,6 +447,10 @@ def run(chk):
                 v = H.elems(path.value)[0] if not isinstance(path.value, (int, float)) else path.value
                 if not isinstance(v, F64):
                     continue
+                from symnp import solve as _solve
+                if _solve._solve_one(_solve.Obligation('feas', ap, ir.TRUE, 'reach'), 30)[0] == 'unsat':
+                    chk.extra.setdefault('binary64_paths_proved_infeasible', []).append(f'{fn} d={d} path {pi}')
+                    continue                  # path feasibility was 'unknown' during exploration; z3 now proves the path condition unsatisfiable in the window
                 mono = chk.add(f'{fn}(d={d}, x): no NaN / inf for every binary64 x in [bound, bound(1+2^-30)] (path {pi}) [monolithic]', ap, ir.band(ir.bnot(v.isnan().n), ir.bnot(v.isinf().n)),
                                key=f'{fn} not finite next to the separability boundary', replay=rp, fallback_payloads=fb, kind='probe_forall', timeout_s=40 if quick else 150)
                 # the same claim by solver-checked one-operation interval lemmas (composition bounds the result, hence finite)
